@@ -326,6 +326,39 @@ def c12_native():
                         if int(I[j]) != expI or int(R[j]) != expR:
                             wit['observed'] = 'row %d: I=%s R=%s, expected I=%d R=%d' % (j, I[j], R[j], expI, expR)
                             return n, wit
+    # the wrappers with p = 1 (every contact succeeds; one draw per contact / per edge, all below 1): same layers as discrete_SIR with the
+    # always-rule, also with initially recovered nodes; counts sum to the order of G
+    for G in graphs[:3]:
+        nodes = list(G.nodes())
+        for seeds, rec in (([nodes[0]], []), ([nodes[0]], [nodes[1]]), ([nodes[1]], [nodes[0], nodes[2]])):
+            dist = bfs_layers(G, lambda u, v: True, seeds, set(rec))
+            for wname in ('basic_discrete_SIR', 'percolation_based_discrete_SIR'):
+                for tmin in (0, 2):
+                    n += 1
+                    wit = dict(simulator=wname, edges=list(G.edges()), p=1.0, seeds=seeds, recovered=rec, tmin=tmin)
+                    try:
+                        t, S, I, R = getattr(EoN, wname)(G, 1.0, initial_infecteds=seeds, initial_recovereds=rec, tmin=tmin)
+                        sim = getattr(EoN, wname)(G, 1.0, initial_infecteds=seeds, initial_recovereds=rec, tmin=tmin, return_full_data=True)
+                    except Exception as e:
+                        wit['observed'] = '%s: %s' % (type(e).__name__, e)
+                        return n, wit
+                    for j in range(len(t)):
+                        expI = sum(1 for u, d in dist.items() if d == j)
+                        expR = len(rec) + sum(1 for u, d in dist.items() if d < j)
+                        if (int(S[j]), int(I[j]), int(R[j])) != (G.order() - expI - expR, expI, expR) or float(t[j]) != tmin + j:
+                            wit['observed'] = 'row %d is (t,S,I,R)=(%s,%s,%s,%s), the layer recurrence on all %d nodes gives (%s,%s,%s,%s)' % (
+                                j, t[j], S[j], I[j], R[j], G.order(), tmin + j, G.order() - expI - expR, expI, expR)
+                            return n, wit
+                    for u in G:
+                        try:
+                            st0 = sim.node_status(u, tmin)
+                        except Exception as e:
+                            wit['observed'] = 'node %s is missing from the full-data object (%s)' % (u, type(e).__name__)
+                            return n, wit
+                        want0 = 'R' if u in rec else ('I' if u in seeds else 'S')
+                        if st0 != want0:
+                            wit['observed'] = 'node %s is %s at tmin, requested %s' % (u, st0, want0)
+                            return n, wit
     # recovery rule keeps nodes infectious
     G = nx.path_graph(4)
     calls = {}
